@@ -127,6 +127,8 @@ std::vector<std::string>& split(std::vector<std::string>* into,
 
             into->emplace_back(last, it);
             last = it + sep.size();
+            // continue behind the separator: occurrences do not overlap
+            it = last - 1;
         }
     }
 
